@@ -454,6 +454,8 @@ public:
             O["record"] = R;
             O["ptr"] = P;
           }
+          if (VD->isStaticLocal())
+            O["static"] = true;
           if (VD->hasInit())
             O["init"] = expr(VD->getInit());
           if (const auto *VAT = Ctx.getAsVariableArrayType(VD->getType()))
